@@ -28,6 +28,7 @@ func (c *Ctx) refreshIssueFns() []*ssa.Function {
 }
 
 func runC04(c *Ctx) {
+	defer checkSessionCloneDeep(c, "C04.R7")
 	defer checkStoreKeyed(c, "C04.R6", storeRow{meth: "GetRefreshTokenSession", table: "RefreshTokens", op: "get", key: 2})
 	c04R1(c)
 	c04R2R3(c)
